@@ -13,6 +13,9 @@ CONSTANTS
 VARIABLES ops, sched, cfgv
 mcvars == <<vars, ops, sched, cfgv>>
 View == <<svars, init0, hist, ops, IF GenMode /\ GenFail THEN Len(sched) ELSE 0>>
+\* transition cover: one BFS path per distinct (state, call that led to it), so that calls which lead to an
+\* already known state (no-op calls, self-transfers, alternative ways into a state) get a schedule too
+ViewEv == <<View, ev>>
 
 Admins == {"ad", "ad2"}
 HookAddrs == {"h1", "h2"}
@@ -22,7 +25,7 @@ Init ==
   \E m \in InitMembers, ad \in InitAdmins :
     /\ cfg = [flavour |-> Flavour, tpw |-> Tpw, minBond |-> MinBondC, period |-> PeriodC, maxW |-> MaxWC]
     /\ members = (IF Flavour = "group" THEN m ELSE NoMembers)
-    /\ total = SumW(members) /\ listed = Listing(members)
+    /\ total = SumW(members) /\ listed = Listing(members) /\ nlisted = Cardinality(Listing(members))
     /\ admin = ad /\ hooks = <<>>
     /\ stake = [a \in Addr |-> 0] /\ claims = [a \in Addr |-> <<>>] /\ held = 0 /\ ubal = [a \in Addr |-> 0]
     /\ now = [h |-> 0, t |-> 0] /\ out = <<>>
@@ -55,28 +58,28 @@ Distinct(add) == \A i, j \in 1..Len(add) : i # j => add[i].a # add[j].a
 DoUpdateMembers(by, add, rem) ==
   /\ Flavour = "group" /\ by = admin /\ admin # "none" /\ Distinct(add)
   /\ LET m1 == ApplyAdd(members, add)  m2 == ApplyRemove(m1, rem) IN
-     /\ members' = m2 /\ total' = SumW(m2) /\ listed' = Listing(m2)
+     /\ members' = m2 /\ total' = SumW(m2) /\ listed' = Listing(m2) /\ nlisted' = Cardinality(Listing(m2))
      /\ out' = HookOut(AddDiffs(members, add) \o RemDiffs(m1, rem))
   /\ UNCHANGED <<admin, hooks>> /\ StakeFrame /\ Frame0
 DoUpdateAdmin(by, new) ==
   /\ by = admin /\ admin # "none"
   /\ admin' = new /\ out' = <<>>
-  /\ UNCHANGED <<members, total, listed, hooks>> /\ StakeFrame /\ Frame0
+  /\ UNCHANGED <<members, total, listed, nlisted, hooks>> /\ StakeFrame /\ Frame0
 DoAddHook(by, h) ==
   /\ by = admin /\ admin # "none" /\ h \notin SeqSet(hooks)
   /\ hooks' = Append(hooks, h) /\ out' = <<>>
-  /\ UNCHANGED <<members, total, listed, admin>> /\ StakeFrame /\ Frame0
+  /\ UNCHANGED <<members, total, listed, nlisted, admin>> /\ StakeFrame /\ Frame0
 DoRemoveHook(by, h) ==
   /\ by = admin /\ admin # "none" /\ h \in SeqSet(hooks)
   /\ hooks' = Without(hooks, h) /\ out' = <<>>
-  /\ UNCHANGED <<members, total, listed, admin>> /\ StakeFrame /\ Frame0
+  /\ UNCHANGED <<members, total, listed, nlisted, admin>> /\ StakeFrame /\ Frame0
 
 WeightOf(s) == IF s >= MinBond THEN s \div Tpw ELSE -1
 Remember(by, s) ==      \* update_membership
   LET w == WeightOf(s) IN
   /\ MaxWC # -1 => w <= MaxWC
   /\ members' = [members EXCEPT ![by] = w]
-  /\ total' = SumW(members') /\ listed' = Listing(members')
+  /\ total' = SumW(members') /\ listed' = Listing(members') /\ nlisted' = Cardinality(Listing(members'))
   /\ out' = IF w = members[by] THEN <<>> ELSE HookOut(<<[a |-> by, old |-> members[by], new |-> w]>>)
 DoBond(by, a) ==
   /\ Flavour = "stake"
@@ -95,7 +98,7 @@ DoClaim(by) ==
   /\ claims' = [claims EXCEPT ![by] = SelectSeq(@, LAMBDA c : ~Expired(c.rel, now))]
   /\ held' = held - paid /\ ubal' = [ubal EXCEPT ![by] = @ + paid]
   /\ out' = <<[k |-> "pay", to |-> by, diffs |-> <<>>, amt |-> paid]>>
-  /\ UNCHANGED <<members, total, listed, admin, hooks, stake>> /\ Frame0
+  /\ UNCHANGED <<members, total, listed, nlisted, admin, hooks, stake>> /\ Frame0
 
 Call(e, action) ==
   \/ /\ action
@@ -126,7 +129,7 @@ Advance ==
   /\ hist' = Append(hist, [m |-> members, t |-> total])
   /\ ev' = Ev("advance", "env", [dh |-> 1, dt |-> 10])
   /\ out' = <<>>
-  /\ UNCHANGED <<cfg, members, total, listed, admin, hooks, init0, ops, cfgv>> /\ StakeFrame
+  /\ UNCHANGED <<cfg, members, total, listed, nlisted, admin, hooks, init0, ops, cfgv>> /\ StakeFrame
   /\ sched' = IF GenMode THEN Append(sched, ev') ELSE sched
 
 Next == AUpdateMembers \/ AUpdateAdmin \/ AAddHook \/ ARemoveHook \/ ABond \/ AUnbond \/ AClaim \/ Advance
